@@ -8,12 +8,22 @@ use crate::frame::*;
 use crate::rng::{hash_str, Rng};
 use cfgrammar::{NewlineCache, Span};
 use lrlex::{DefaultLexerTypes, LRLexError, LRNonStreamingLexer};
-use lrpar::{LexParseError, NonStreamingLexer};
+use lrpar::{LexParseError, Lexeme, NonStreamingLexer};
 use serde_json::{json, Map, Value};
 use std::collections::BTreeMap;
 use std::str::FromStr;
 
 pub struct C19;
+
+thread_local! {
+    /// grammar `S: ;` with one token, its table and the token's id (for parse errors at a chosen lexeme)
+    static PE_TABLE: (cfgrammar::yacc::YaccGrammar<u32>, lrtable::StateTable<u32>, u32) = {
+        let grm = cfgrammar::yacc::YaccGrammar::new(cfgrammar::yacc::YaccKind::Original(cfgrammar::yacc::YaccOriginalActionKind::NoAction), "%start S\n%token a\n%%\nS: ;\n").expect("grammar");
+        let (_, st) = lrtable::from_yacc(&grm, lrtable::Minimiser::Pager).expect("table");
+        let tid = u32::from(grm.token_idx("a").expect("token"));
+        (grm, st, tid)
+    };
+}
 
 const ALPHA: [&str; 6] = ["a", "é", "♠", "\n", "\r", " "];
 
@@ -265,6 +275,38 @@ fn check_text(s: &str, all_chunkings: bool, rng: &mut Rng, out: &mut CaseOut) {
     // through the lexer API (single feed)
     let lexer: LRNonStreamingLexer<DefaultLexerTypes<u32>> =
         LRNonStreamingLexer::new(s, vec![], NewlineCache::from_str(s).unwrap());
+    // a parse error at a real lexeme st..en: the grammar accepts only the empty input, the lexer holds the
+    // single lexeme st..en, so the parser reports its error at that lexeme and pp must print its START
+    PE_TABLE.with(|t| {
+        let (grm, stable, tid) = &*t;
+        let spans: Vec<(usize, usize)> = if all_chunkings {
+            bs.iter().enumerate().flat_map(|(i, &a)| bs[i..].iter().map(move |&b| (a, b))).collect()
+        } else {
+            (0..40).map(|_| { let a = rng.below(bs.len()); let b = a + rng.below(bs.len() - a); (bs[a], bs[b]) }).collect()
+        };
+        for (st, en) in spans {
+            let lx: LRNonStreamingLexer<DefaultLexerTypes<u32>> = LRNonStreamingLexer::new(s, vec![Ok(lrlex::DefaultLexeme::new(*tid, st, en - st))], NewlineCache::from_str(s).unwrap());
+            let r = guarded(|| {
+                let pb = lrpar::RTParserBuilder::new(grm, stable).recoverer(lrpar::RecoveryKind::None);
+                let (_, errs) = pb.parse_map(&lx, &|_| (), &|_, _| ());
+                errs.first().map(|e| e.pp(&lx, &|_| None))
+            });
+            out.evals += 1;
+            match r {
+                Err(p) => out.violate("panic", &["pp-parse-error"], format!("pp of a parse error at {st}..{en} panicked: {p}"), json!({"text": s, "span": [st, en]})),
+                Ok(None) => out.violate("pp-mismatch", &["pp-parse-error", "harness"], "the one-lexeme parse reported no error".into(), json!({"text": s, "span": [st, en]})),
+                Ok(Some(txt)) => {
+                    out.count("pp_parse_errors_checked", 1);
+                    if en > st {
+                        out.count("pp_parse_errors_at_nonempty_lexemes", 1);
+                    }
+                    if !m.cols(st).iter().any(|c| txt == format!("Parsing error at line {} column {}. No repair sequences found.", m.line(st), c)) {
+                        out.violate("pp-mismatch", &["pp-parse-error"], format!("pp of a parse error at lexeme {st}..{en} = {txt:?}, expected line {} column {:?}", m.line(st), m.cols(st)), json!({"text": s, "span": [st, en]}));
+                    }
+                }
+            }
+        }
+    });
     for (i, &st) in bs.iter().enumerate() {
         for &en in &bs[i..] {
             out.evals += 1;
@@ -393,7 +435,7 @@ impl Check for C19 {
         n_exh_cases(tier) + n_rand_cases(tier)
     }
     fn rule(&self) -> &'static str {
-        "exhaustive: every string of length <= L over {a, é, ♠, LF, CR, space} (L=4 quick, 6 thorough) x every chunking into <= 3 feeds x every char-boundary offset x every char-boundary span, through NewlineCache, NonStreamingLexer::{line_col,span_lines_str} LexParseError::pp and lrpar::diagnostics::SpannedDiagnosticFormatter::{file_location_msg at every offset, underline_span_with_text against a reference rendering: all spans of the exhaustive texts, sampled spans of the longer ones}; plus random longer texts (5-60 pieces incl. CRLF, 4-byte, double-width, zero-width and combining chars; every third one has 9-20 or ~100 short lines so that spans cross the 9/10 and 99/100 line-number boundaries) with random chunkings. Non-trivial = text contains at least one LF; distinct by text."
+        "exhaustive: every string of length <= L over {a, é, ♠, LF, CR, space} (L=4 quick, 6 thorough) x every chunking into <= 3 feeds x every char-boundary offset x every char-boundary span, through NewlineCache, NonStreamingLexer::{line_col,span_lines_str}, LexParseError::pp (lexing errors at every offset, parse errors at lexemes covering every span) and lrpar::diagnostics::SpannedDiagnosticFormatter::{file_location_msg at every offset, underline_span_with_text against a reference rendering: all spans of the exhaustive texts, sampled spans of the longer ones}; plus random longer texts (5-60 pieces incl. CRLF, 4-byte, double-width, zero-width and combining chars; every third one has 9-20 or ~100 short lines so that spans cross the 9/10 and 99/100 line-number boundaries) with random chunkings. Non-trivial = text contains at least one LF; distinct by text."
     }
     fn assumptions(&self) -> Vec<&'static str> {
         vec![
@@ -407,7 +449,7 @@ impl Check for C19 {
         tier.sz(500, 20000)
     }
     fn required_counters(&self, _tier: Tier) -> Vec<&'static str> {
-        vec!["spans_ending_at_line_start", "spans_ending_at_text_end", "empty_spans", "multi_line_spans", "crlf_columns", "pp_checked", "diagnostics_locations_checked", "diagnostics_multi_line_underlines", "diagnostics_underlines_across_a_digit_boundary"]
+        vec!["spans_ending_at_line_start", "spans_ending_at_text_end", "empty_spans", "multi_line_spans", "crlf_columns", "pp_checked", "pp_parse_errors_at_nonempty_lexemes", "diagnostics_locations_checked", "diagnostics_multi_line_underlines", "diagnostics_underlines_across_a_digit_boundary"]
     }
     fn extra_coverage(&self, tier: Tier, c: &BTreeMap<String, u64>) -> Map<String, Value> {
         let mut m = Map::new();
